@@ -38,7 +38,8 @@ let () = iter_lines (fun line ->
                   Printf.sprintf "q%s:%s:%s:%s" (sname s) (b01 cl) (ni cnt) (ni live)) [SA; SB] in
         let qc = List.mapi (fun i c -> let ((((a, b), fl), la), lb) = query_conn c in
                   Printf.sprintf "qc%d:%s%s%s:%s:%s" i (b01 a) (b01 b) (b01 fl) (ni la) (ni lb)) (sy_conns !y) in
-        print_char ' '; print_string (String.concat "," (q @ qc))
+        let np = List.length (sy_pend !y) in
+        print_char ' '; print_string (String.concat "," (q @ qc @ [Printf.sprintf "qp%d" np]))
       end else begin
         let lbl = match f.(0) with
           | "O" -> LOpen (side_of f.(1))
